@@ -44,7 +44,8 @@ MANIFEST = dict(
          'ParseError whose message names the tag and the line 1 + number of newlines before the tag start; Var and Let constructors on '
          'representative arguments. AST obligations: every raise ParseError passes (message, tag); scanner patterns have no ambiguous '
          'nested repetition. Known finding: the EPFS tag pattern of String.tagre has one (exponential matching time on an unterminated '
-         '%(tag).',
+         '%(tag).'
+         ' Located errors: at every parse_error(message, tag, text, position) call of parse / parse_block / parse_close the position is where the named tag starts (text[position:position+len(tag)] == tag), parseTag errors carry the tag they were given.',
     note='Level other: the iff-grammar claim is not decided; constructor closure is partly bounded. Trusted: pyvc, z3, cvc5, CPython ast/re.',
     technique='contract-based deductive verification (pyvc symbolic execution: raises-only clauses and termination measures) + AST obligations',
     design_ref='DESIGN.md 4 C06',
